@@ -135,7 +135,7 @@ def write_inst_legacy(lean_dir=None):
     lean_dir = lean_dir or LEAN
     data = open(os.path.join(lean_dir, "O1722", "Gen", "Data.lean")).read()
     src = ["/- REGENERATED instance obligations: legacy wrapper records (Gen/Data.lean) = C text (Gen/Cir.lean) -/",
-           "import O1722.Refine.Legacy", "import O1722.Gen.Data", "", "namespace O1722.Inst.Legacy", "open O1722 O1722.C O1722.Refine", ""]
+           "import O1722.Refine.Legacy", "import O1722.Gen.Data", "import O1722.Gen.InstInit", "", "namespace O1722.Inst.Legacy", "open O1722 O1722.C O1722.Refine", ""]
     names = []
     found = set()
     for m in re.finditer(r"^def (\w+) : GenFormat where(.*?)(?=^def |\Z)", data, re.S | re.M):
@@ -172,6 +172,31 @@ def write_inst_legacy(lean_dir=None):
                 src.append("    pdu hpdu field value hf hv m (by decide)")
             src.append("")
             names.append("legacy_" + fn)
+        # legacy initialisers of the "NULL guard + call the current initialiser" shape
+        fm = re.search(r'file := "([^"]+)"', body)
+        im = re.search(r"inits := \[(.*?)\]\n  legacy", body, re.S)
+        if fm and im:
+            fl = "fns_" + re.sub(r"[^A-Za-z0-9_]", "_", os.path.splitext(os.path.basename(fm.group(1)))[0])
+            irecs = re.findall(r'\{ fn := "(\w+)", legacy := (true|false), err := [^,]+, ok := [^,]+, steps := \[(.*?)\] \}', im.group(1))
+            cur = {r[0]: k for k, r in enumerate(irecs) if r[1] == "false"}
+            for k, (ifn, leg, steps) in enumerate(irecs):
+                mm = re.fullmatch(r'\.callInit "(\w+)"', steps.strip())
+                if leg != "true" or not mm or mm.group(1) not in cur:
+                    continue
+                cfn, k0 = mm.group(1), cur[mm.group(1)]
+                if cfn not in found:
+                    found.add(cfn)
+                    src.append("set_option maxRecDepth 16384 in")
+                    src.append('theorem find_%s (e : Endian) : findFn (Gen.Cir.prog e) "%s" = some Gen.Cir.%s := by cases e <;> rfl' % (cfn, cfn, cfn))
+                src.append("theorem legacy_init_%s (e : Endian) (rom : Nat → Byte) (glob : String → Nat) (tb : Nat) (hrom : RomTable rom tb Gen.%s.table) "
+                           "(hglob : glob Gen.%s.tableName = tb) (pdu : Option Nat) (hpdu : ∀ p, pdu = some p → p ≠ 0 ∧ p + 1024 ≤ 18446744073709551616) (m : Mem) :" % (ifn, fmt, fmt))
+                src.append("    (exec (mkEnv e rom glob) 45 Gen.Cir.%s.body (mkFrame [pdu.getD 0]) ⟨m, []⟩).map (fun r => (r.1, r.2.2.mem))" % ifn)
+                src.append("      = ((Gen.%s.inits[%d]'(by decide)).run Gen.%s e m pdu 0).map (fun r => (.ret (Ty.ofInt .i32 r.2), r.1)) :=" % (fmt, k, fmt))
+                src.append("  have hk := stepsOK_of_initsCheck e Gen.%s Gen.Cir.%s _ (O1722.Inst.Init.lookups_%s e) O1722.Inst.Init.inits_%s (Gen.%s.inits[%d]'(by decide)) (List.getElem_mem _) (by decide)" % (fmt, fl, fmt, fmt, fmt, k0))
+                src.append("  legacyInit_code e rom glob Gen.%s tb hrom (by decide) hglob (Gen.%s.inits[%d]'(by decide)) Gen.Cir.%s (by decide) \"%s\" (by decide)" % (fmt, fmt, k, ifn, cfn))
+                src.append("    (Gen.%s.inits[%d]'(by decide)) Gen.Cir.%s (by decide) (find_%s e) (by decide) hk.1 hk.2.1 pdu hpdu m" % (fmt, k0, cfn, cfn))
+                src.append("")
+                names.append("legacy_init_" + ifn)
     src += ["end O1722.Inst.Legacy", ""]
     with common.Lock("lake"):
         write_if_changed(os.path.join(lean_dir, "O1722", "Gen", "InstLegacy.lean"), "\n".join(src))
@@ -388,16 +413,17 @@ CODE_LEVEL = {
             ["O1722.Refine.Avtp_SetField_refines", "O1722.Refine.C02_code", "O1722.Refine.setter_code", "O1722.Refine.C02_code_dedicated"],
             "the C text of Avtp_SetField = Model.setFieldLog, hence = the reference write of the value into the field's bits; and the C "
             "text of every generic / dedicated setter of every format performs the reference write of its Spec field"),
-    "C04": (["O1722.Gen.InstInit"], ["O1722.Refine.init_code", "O1722.Refine.inits_code", "O1722.Refine.setter_body_code"],
+    "C04": (["O1722.Gen.InstInit", "O1722.Gen.InstLegacy"], ["O1722.Refine.init_code", "O1722.Refine.inits_code", "O1722.Refine.setter_body_code", "O1722.Refine.legacyInit_code"],
             "the C text of every current-API initialiser (NULL guard, memset, constant field writes through the generic or a "
             "dedicated setter, each resolved in the program) leaves the memory Init.run describes — the object C04_format proves "
-            "canonical; per-format obligations inits_<format> / lookups_<format> (the legacy initialisers stay with the translator's "
-            "shape recognition)"),
+            "canonical; per-format obligations inits_<format> / lookups_<format>; the legacy initialisers of the guard-and-forward shape "
+            "(avtp_crf_pdu_init, avtp_rvf_pdu_init) = Init.run of their records (legacy_init_<fn>); avtp_aaf_pdu_init and "
+            "avtp_cvf_pdu_init stay with the translator's shape recognition"),
     "C11": (["O1722.Refine.Props", "O1722.Gen.InstLegacy"], ["O1722.Refine.C11_code", "O1722.Refine.legacySet_code", "O1722.Refine.legacyGet_code"],
             "the C text of Avtp_GetField/SetField on a NULL PDU or an out-of-range identifier: 0 / no effect, no memory access; and the C "
             "text of every deprecated avtp_*_pdu_get/_set = LegacyAcc.runGet/runSet (NULL PDU, NULL result pointer or out-of-range "
             "identifier: -EINVAL and memory unchanged; otherwise 0 and the forwarded access), per-wrapper theorems legacy_<fn>"),
-    "C12": (["O1722.Gen.InstLegacy"], ["O1722.Refine.legacySet_code", "O1722.Refine.legacyGet_code"],
+    "C12": (["O1722.Gen.InstLegacy"], ["O1722.Refine.legacySet_code", "O1722.Refine.legacyGet_code", "O1722.Refine.legacyInit_code"],
             "the C text of every deprecated avtp_*_pdu_get/_set (argument checks, forwarded call resolved in the program, typed store "
             "through the out-parameter) = LegacyAcc.runGet/runSet, the objects legacyGet_eq_current / legacySet_eq_current relate to the "
             "current API; per-wrapper theorems legacy_<fn> (Gen/InstLegacy.lean)"),
